@@ -59,6 +59,22 @@ def run_replays(ctx, bins, extra_files=()):
     return len(files), n
 
 
+# configurations that are secondary for most properties (a third of the shards) ...
+LIGHT_BINS = ("chk-events",)
+# ... but primary for these
+PRIMARY_BINS = {"C13": ("chk-events",), "C10": ("chk-events",), "C17": ("chk-events",)}
+# properties whose histories also run on an archetype with more than 65 536 entities
+PREFILL_PROPS = ("C01", "C02", "C09")
+
+
+def events_bin(features=()):
+    """The `events` build as a secondary configuration of a history check (gecs' storage code has
+    `#[cfg(feature = "events")]` statements inside create / destroy / clone)."""
+    if "events" in features:
+        return {}
+    return {"chk-events": build_harness("chk", tuple(features) + ("events",))}
+
+
 def hist_search(ctx, bins, features=(), traces=False, budget=None, prop_for_run=None):
     """Runs the sharded generated search on every binary. Returns aggregated statistics."""
     shards, cases, maxlen, watchdog = budget or HIST_BUDGET[ctx.tier]
@@ -68,7 +84,9 @@ def hist_search(ctx, bins, features=(), traces=False, budget=None, prop_for_run=
     worlds = hist_worlds(ctx.prop, features)
     jobs = []
     for name, b in sorted(bins.items()):
-        for s in range(shards):
+        # secondary configurations (LIGHT_BINS) get a third of the shards
+        nshards = max(2, shards // 3) if name in LIGHT_BINS and name not in PRIMARY_BINS.get(ctx.prop, ()) else shards
+        for s in range(nshards):
             world = worlds[s % len(worlds)]
             seed = ctx.sub_seed(name, s)
             base = os.path.join(work, "%s-%d" % (name, s))
@@ -77,6 +95,17 @@ def hist_search(ctx, bins, features=(), traces=False, budget=None, prop_for_run=
             if traces:
                 argv.append("--traces")
             jobs.append(((name, s, world, seed), argv))
+        # large-archetype shards: every case starts with 96 * 1024 creations in one archetype, so
+        # that slot and dense indices beyond 16 bits take part in the history (fewer, shorter cases:
+        # every step costs O(len))
+        if ctx.prop in PREFILL_PROPS and name in ("chk", "rel") and "wide" not in features:
+            pcases, plen = (10, 30) if ctx.tier == "quick" else (80, 40)
+            for j, (world, arch) in enumerate([("WMix", 0), ("WSolo", 0)]):
+                s = 1000 + j
+                seed = ctx.sub_seed(name, s)
+                base = os.path.join(work, "%s-%d" % (name, s))
+                jobs.append(((name, s, world, seed), [b, "hist", "--prop", prop_run, "--world", world, "--cases", str(pcases), "--len", str(plen), "--seed", str(seed), "--prefill", "%d,96" % arch,
+                                                      "--out", base + ".json", "--fail-out", base + ".ops", "--last-case", base + ".last"]))
     res = run_many(jobs, watchdog)
     agg = {"evaluations": 0, "ops_run": 0, "hashes": set(), "labels": {}, "counters": {}, "collateral": {}, "samples": [], "shards": 0,
            "traces": {}, "per_bin": {}}
@@ -284,6 +313,7 @@ HIST_RULES = {
 
 def check_history(ctx, features=(), level="exploration", extra_step=None, extra_bins=None):
     bins = {"chk": build_harness("chk", features), "rel": build_harness("rel", features)}
+    bins.update(events_bin(features))
     if extra_bins:
         bins.update(extra_bins())
     extra = [ctx.replay] if ctx.replay else []
@@ -1116,8 +1146,10 @@ def check_c19(ctx):
 
 def check_c12(ctx):
     bins = {"chk": build_harness("chk"), "rel": build_harness("rel")}
+    hbins = dict(bins)
+    hbins.update(events_bin())
     extra = [ctx.replay] if ctx.replay and ctx.replay.endswith(".ops") else []
-    nfiles, _ = run_replays(ctx, bins, extra)
+    nfiles, _ = run_replays(ctx, hbins, extra)
     # the 2^24 limit: reached by with_capacity and by growth (decided outside the per-history search:
     # ~1-2 s and ~700 MB per scenario on the zero-sized archetype of WOne)
     starts = [(1 << 24) - 3, 0] if ctx.tier == "quick" else [(1 << 24) - 3, 0, (1 << 24) - 1, 1 << 24, 3 << 22, 1, 5]
@@ -1168,7 +1200,7 @@ def check_c12(ctx):
     if ctx.replay:
         write_evidence(ctx, "exploration", {"evaluations": nfiles + len(boundary), "distinct_nontrivial": 2, "rule": "replay of saved inputs only", "samples": [open(ctx.replay).read()]}, HIST_ASSUMPTIONS)
         return
-    agg = hist_search(ctx, bins)
+    agg = hist_search(ctx, hbins)
     cov = hist_coverage(ctx, agg, nfiles, rule_of("C12") + "; plus the capacity-limit scenarios: with_capacity(2^24) accepted and 2^24+1 refused; an archetype filled to exactly 16 777 216 entities from the listed starting capacities (by growth and by with_capacity), every create below the limit succeeds with a fresh handle, capacity never exceeds the limit, create_within_capacity refuses and create panics with 'capacity overflow' at the limit, afterwards len/capacity/handles are intact, a freed position is reused, the representation invariant holds", bins)
     cov["evaluations"] += len(boundary)
     cov["capacity_limit_scenarios"] = boundary
